@@ -4,6 +4,8 @@ import (
 	"go/token"
 	"go/types"
 	"math/rand"
+	"math"
+	"strconv"
 	"testing"
 	"unicode/utf8"
 )
@@ -140,6 +142,29 @@ func TestBstrRuneCountAgainstStdlib(t *testing.T) {
 					check([]byte{a, b, c, d})
 				}
 			}
+		}
+	}
+}
+
+
+// the ConvertFloat32 contract: which float64 values survive FormatFloat -> ParseFloat(.., 32)
+func TestFloat32RangeContract(t *testing.T) {
+	ok := func(x float64) bool {
+		_, err := strconv.ParseFloat(strconv.FormatFloat(x, 'f', -1, 64), 32)
+		return err == nil
+	}
+	h := float32Halfway
+	if h != math.MaxFloat32+math.Pow(2, 103) {
+		t.Fatal("halfway constant")
+	}
+	for _, c := range []struct {
+		x    float64
+		want bool
+	}{{math.MaxFloat32, true}, {math.Nextafter(math.MaxFloat32, math.Inf(1)), true}, {math.Nextafter(h, 0), true}, {h, true}, {-h, true},
+		{math.Nextafter(h, math.Inf(1)), false}, {-math.Nextafter(h, math.Inf(1)), false}, {1e39, false}, {math.MaxFloat64, false},
+		{math.Inf(1), true}, {math.Inf(-1), true}, {math.NaN(), true}, {0, true}, {5e-324, true}} {
+		if ok(c.x) != c.want {
+			t.Fatalf("%v: stdlib %v, contract %v", c.x, ok(c.x), c.want)
 		}
 	}
 }
